@@ -222,11 +222,17 @@ pub fn check_history(w: &World, hist: &[Op], real_sleep: bool) -> Vec<Finding> {
     // a path that stalled is re-run: store time is real time plus the seam's shift
     let budget = if real_sleep { 1040 * m.ticks as u128 + 300 } else { 250 };
     let mut tries = 0;
-    while dt.as_millis() > budget && tries < 3 {
+    while dt.as_millis() > budget && tries < 4 {
         let x = attempt();
         r = x.0;
         dt = x.1;
         tries += 1;
+    }
+    if dt.as_millis() > budget + 250 {
+        // still stalled after five attempts: the machine is too loaded for this path to be judged;
+        // no verdict is better than a verdict that depends on scheduling
+        INCONCLUSIVE.fetch_add(1, std::sync::atomic::Ordering::Relaxed);
+        return vec![];
     }
     match r {
         Err(pn) => vec![finding(format!("C20|{}", pn.sig()), format!("{:?} on {:?}", pn, hist), mk())],
@@ -239,7 +245,11 @@ pub fn check_history(w: &World, hist: &[Op], real_sleep: bool) -> Vec<Finding> {
                 return vec![];
             }
             // confirm once more before reporting (timing must not become a verdict)
-            let (r2, _) = attempt();
+            let (r2, dt2) = attempt();
+            if dt2.as_millis() > budget + 250 {
+                INCONCLUSIVE.fetch_add(1, std::sync::atomic::Ordering::Relaxed);
+                return vec![];
+            }
             let bad2 = match r2 {
                 Ok(Ok(b)) => b,
                 _ => bad.clone(),
@@ -253,6 +263,8 @@ pub fn check_history(w: &World, hist: &[Op], real_sleep: bool) -> Vec<Finding> {
         }
     }
 }
+
+pub static INCONCLUSIVE: std::sync::atomic::AtomicU64 = std::sync::atomic::AtomicU64::new(0);
 
 pub fn explore(all_ops: &[Op]) -> Vec<(Model, Vec<Op>)> {
     let mut seen = HashSet::new();
@@ -387,6 +399,10 @@ pub fn run(ctx: &Ctx) {
     }
     ctx.merge(t);
     ctx.space("real-clock replays: traces with TTL 1 / 2, cache-flush and refresh executed with real 1.04 s sleeps and no seam", use_traces.len() as u64, "complete");
+    let inc = INCONCLUSIVE.load(std::sync::atomic::Ordering::Relaxed);
+    if inc > 0 {
+        ctx.cap_hit(&format!("{} executions were too slow to be judged (machine load) and were skipped", inc));
+    }
     ctx.set_extra("seam_validation", json!({"traces_with_real_sleeps": use_traces.len(), "sleep_ms_per_tick": 1040}));
     let _ = w;
 }
